@@ -48,6 +48,22 @@ theorem reachable_good (env : Env) (cache : Cache) (h : Reachable env cache) : G
   | empty => exact goodCache_nil env
   | step cache t _ ih => exact (cache_history_independent env t cache ih).2
 
+/-- the cache after a sequence of calls of `Marshal` for values of the types `ts` (in this order) -/
+def runCalls (env : Env) : List TD → Cache → Cache
+  | [], cache => cache
+  | t :: ts, cache => runCalls env ts (constructCachedCodec env t cache).2
+
+theorem runCalls_reachable (env : Env) : ∀ (ts : List TD) (cache : Cache), Reachable env cache →
+    Reachable env (runCalls env ts cache)
+  | [], cache, h => h
+  | t :: ts, cache, h => runCalls_reachable env ts _ (.step cache t h)
+
+/-- **C09, in terms of sequences of calls**: whatever calls came before, the codec a call obtains is the codec it
+obtains with a cold cache -/
+theorem calls_history_independent (env : Env) (ts : List TD) (t : TD) :
+    (constructCachedCodec env t (runCalls env ts [])).1 = (constructCachedCodec env t []).1 :=
+  (cache_history_independent env t _ (reachable_good env _ (runCalls_reachable env ts [] .empty))).1
+
 /-- the seeded mutation (`[]T` takes the element codec from the shared cache): T = a struct with (*T).MarshalJSON,
 marshalled first — its entry was built for a non-addressable top-level value, without the pointer-receiver method -/
 def witnessEnv : Env := [(1, ⟨⟨.ptr, .none, .none, .none⟩, .struct (.cons "X" false false (.prim .int) .nil)⟩)]
